@@ -1038,7 +1038,8 @@ class TLSRecordLayer(object):
             # However, if we get here DURING handshaking, we take
             # it upon ourselves to see if the next message is an
             # Alert.
-            if msg.contentType == ContentType.handshake:
+            # (self.closed is True until the handshake is done)
+            if msg.contentType == ContentType.handshake and self.closed:
 
                 # See if there's an alert record
                 # Could raise socket.error or TLSAbruptCloseError
@@ -1056,10 +1057,18 @@ class TLSRecordLayer(object):
                 if recordHeader.type == ContentType.alert:
                     alert = Alert().parse(p)
                     raise TLSRemoteAlert(alert)
+                # it's not an alert, report the original failure
+                raise
             else:
                 # If we got some other message who know what
                 # the remote side is doing, just go ahead and
                 # raise the socket.error
+                # (errors while sending application data are handled by
+                # writeAsync, nothing else closes the connection for
+                # post-handshake control messages)
+                if msg.contentType in (ContentType.handshake,
+                                       ContentType.heartbeat):
+                    self._shutdown(False)
                 raise
 
     def _getMsg(self, expectedType, secondaryType=None, constructorType=None):
